@@ -201,15 +201,19 @@ var (
 )
 
 // selfCheck validates the reference against published vectors.
-func selfCheck(t *testing.T) {
+func selfCheck(t testing.TB) {
+	if err := ensureSelf(); err != nil {
+		t.Fatalf("HARNESS-ERROR reference self check: %v", err)
+	}
+}
+
+func ensureSelf() error {
 	selfOnce.Do(func() {
 		common.WalletLogger.SetHandler(log15.DiscardHandler())
 		log15.Root().SetHandler(log15.DiscardHandler())
 		selfErr = runSelfCheck()
 	})
-	if selfErr != nil {
-		t.Fatalf("HARNESS-ERROR reference self check: %v", selfErr)
-	}
+	return selfErr
 }
 
 func runSelfCheck() error {
